@@ -772,8 +772,10 @@ func runC08(c *cli.Ctx) error {
 	}
 	for i := 0; i < 150*c.Scale; i++ {
 		var colls [][]rawDesc
-		mode := r.Intn(4)
+		mode := r.Intn(6)
 		base := pick(r, []string{"m_a_b", "ab12", "m\xc3\xa9x"})
+		// strings a mis-encoded separator could be made of while still being legal inside a value / name
+		sepLike := pick(r, []string{"\xc3\xbf", "\xc3\xbf", "\xc3\xbe", "\x00", "\x01", "\x1f", ",", ";", "|", "=", "\"", " ", "\n", "\xef\xbf\xbd", "\xef\xbf\xbf", "\xc3\xbf\xc3\xbf"})
 		for k := 0; k < 2+r.Intn(2); k++ {
 			var d rawDesc
 			switch mode {
@@ -794,6 +796,18 @@ func runC08(c *cli.Ctx) error {
 				} else {
 					d.consts = map[string]string{}
 					d.vars = []string{"v" + fmt.Sprint(k)}
+				}
+			case 4: // the separator-like string moves between two const values: {a: x S y, b: z} vs {a: x, b: y S z}
+				if k%2 == 0 {
+					d = rawDesc{fq: "m", help: "h", consts: map[string]string{"a": "x" + sepLike + "y", "b": "z"}}
+				} else {
+					d = rawDesc{fq: "m", help: "h", consts: map[string]string{"a": "x", "b": "y" + sepLike + "z"}}
+				}
+			case 5: // ... or between the name and a const value: name m S x {} vs name m {a: x}
+				if k%2 == 0 {
+					d = rawDesc{fq: "m" + sepLike + "x", help: "h", consts: map[string]string{}}
+				} else {
+					d = rawDesc{fq: "m", help: "h", consts: map[string]string{"a": "x"}}
 				}
 			default: // label name | label name, const or variable
 				sp := splits("abcd")
@@ -817,6 +831,9 @@ func runC08(c *cli.Ctx) error {
 		return err
 	}
 
+	if err := runSched(c, r); err != nil {
+		return err
+	}
 	// known finding dimhash-0xff: the separator byte inside a help string
 	w = emit.NewWriter(c.Out, "C08", "known-dimhash-0xff")
 	cs := c08Case{colls: [][]rawDesc{
